@@ -203,6 +203,13 @@ pub fn compare(base_t: &str, base_o: &Obs, label: &str, g_t: &str, g_o: &Obs, ma
     let (bf, gf) = match (base_o, g_o) {
         (Obs::Ok(bf, _), Obs::Ok(gf, _)) => (*bf, *gf),
         _ => {
+            // a parse error is not an evaluation error: an ordering that the parser rejects while another is accepted
+            let pe = |o: &Obs| matches!(o, Obs::Err(e) if e.contains("Parser Error") || e.contains("Parsing Error"));
+            if pe(base_o) != pe(g_o) {
+                let kind = label.split(|c: char| c == '[' || c.is_ascii_digit()).next().unwrap_or(label).to_string();
+                acc.violate(&format!("{}:one-order-does-not-parse", kind), format!("{}: `{}` gives {} but `{}` gives {}", label, base_t.trim(), base_o.short(), g_t.trim(), g_o.short()), json!({"kind":"lib2","rules":base_t,"rules2":g_t,"data":dj,"expected":"both orders parse","observed":format!("{} vs {}", base_o.short(), g_o.short())}));
+                return;
+            }
             // "provided no ordering raises an evaluation error": counted, not compared
             *acc.outcomes.entry("some-ordering-errors".into()).or_insert(0) += 1;
             return;
@@ -328,6 +335,21 @@ pub fn extra_pool() -> Vec<File> {
             un(a(), UnOp::Exists, false),
             bin(kk("b"), BinOp::Eq, false, i(1)),
         ];
+        // ... and nothing about a bare rule reference on the line before it (operators written as words: in, exists, empty, is_*)
+        let kw = vec![
+            bin(kk("index"), BinOp::Eq, false, i(1)),
+            bin(kk("inner"), BinOp::In, false, l(vec![i(1), i(2)])),
+            un(kk("existsx"), UnOp::Exists, false),
+            bin(kk("emptyx"), BinOp::Eq, false, i(0)),
+            bin(kk("is_listed"), BinOp::Eq, false, i(1)),
+            bin(kk("INdex"), BinOp::Eq, false, i(1)),
+            bin(kk("notes"), BinOp::Eq, false, i(1)),
+            bin(kk("order"), BinOp::Eq, false, i(1)),
+        ];
+        for c in &kw {
+            out.push(File { lets: vec![], rules: vec![rule("ra", vec![vec![un(a(), UnOp::Exists, false)]]), rule("r0", vec![vec![named("ra")], vec![c.clone()]])], default: vec![] });
+            out.push(File { lets: vec![], rules: vec![rule("ra", vec![vec![un(a(), UnOp::Exists, false)]]), rule("r0", vec![vec![named("ra").with_not(true)], vec![c.clone()], vec![named("ra")]])], default: vec![] });
+        }
         for x in 0..kc.len() {
             for y in (x + 1)..kc.len() {
                 out.push(file1(rule("r0", vec![vec![kc[x].clone()], vec![kc[y].clone()]])));
@@ -370,7 +392,7 @@ pub fn case_docs() -> Vec<V> {
         m(vec![("Cfg", m(vec![("bucket_name", s("camel")), ("BucketName", s("pascal"))])), ("Other", m(vec![("some_key", i(1))]))]),
         // for the keyword-prefixed keys: the remainders after the keyword (der, igin, tes, ner, ever, key, x) exist too, with other values
         m(vec![("a", m(vec![("order", i(1))])), ("order", i(2)), ("der", i(1)), ("origin", s("y")), ("igin", s("x")), ("notes", i(0)), ("tes", i(1)), ("inner", i(3)), ("ner", i(1)), ("whenever", i(1)), ("ever", s("s")), ("somekey", i(5)), ("key", i(1)), ("b", i(1))]),
-        m(vec![("a", i(1)), ("order", i(1)), ("der", i(2)), ("ORigin", s("x")), ("origin", s("x")), ("igin", s("y")), ("inner", i(1)), ("ner", i(9)), ("whenever", s("s")), ("somekey", i(1)), ("key", i(5)), ("existsx", i(1)), ("x", i(1)), ("b", i(2))]),
+        m(vec![("a", i(1)), ("order", i(1)), ("der", i(2)), ("ORigin", s("x")), ("origin", s("x")), ("igin", s("y")), ("inner", i(1)), ("ner", i(9)), ("whenever", s("s")), ("somekey", i(1)), ("key", i(5)), ("existsx", i(1)), ("x", i(1)), ("b", i(2)), ("index", i(1)), ("dex", i(2)), ("emptyx", i(0)), ("is_listed", i(1)), ("INdex", i(2)), ("notes", i(1))]),
     ]
 }
 #[allow(non_snake_case)]
